@@ -166,6 +166,16 @@ def stepEnv (cfg : Cfg) (e : Env) : Act → Env
   | .prune => { e with pruned := max e.pruned (e.committed - cfg.keep - 1) }
   | _ => e
 
+/-- A batch of `n` changes that the matcher has SENT and not committed: `n` times `emit`
+(`handle_candidates` from its first `blocking_send` up to, not including, `tx.commit()` — where the
+verification hook `verif_hooks::before_matcher_commit` can hold it, for any `n`). -/
+def sendBatch (cfg : Cfg) (e : Env) : Nat → Env
+  | 0 => e
+  | n + 1 => sendBatch cfg (stepEnv cfg e .emit) n
+
+/-- the matcher is let go: `tx.commit()` of the batch -/
+def commitBatch (cfg : Cfg) (e : Env) : Env := stepEnv cfg e .commit
+
 /-- more than the capacity behind: the next `recv` returns `Lagged` -/
 def lagging (cfg : Cfg) (e : Env) (s : Sub) : Bool := decide (cfg.bcap < e.published + 1 - s.cur)
 
